@@ -9,6 +9,9 @@ CONSTANTS
   SetDtypes = {"f8"}
   SliceArgs <- MCSliceArgs
   MergeArgs = {2}
+  TakeArgs <- MCTakeArgs
+  EdgeVals = {0}
+  MinFreqs = {2}
   MaxDepth = 4
   MaxVal = 64
 CHECK_DEADLOCK FALSE
